@@ -251,6 +251,13 @@ fn ntv2_trees(rep: &Report, outcomes: &Mutex<HashSet<u64>>) {
         ("root + two children", vec![root.clone(), child.clone(), sibling.clone()]),
         ("two roots", vec![root.clone(), root2.clone()]),
         ("two roots + child", vec![root.clone(), root2.clone(), child.clone()]),
+        // bounds and steps that are not exactly representable: (north - south) / step is 2.9999999999999996 here,
+        // as any producer writing decimal bounds will create
+        ("single root, decimal bounds", vec![SubGrid { name: "FRAC".into(), parent: "NONE".into(), lat_s: 54.3, lat_n: 54.3 + 3. * 0.1, lon_w: 8.3, lon_e: 8.3 + 6. * 0.2, dlat: 0.1, dlon: 0.2, seed: 606 }]),
+        ("root + child, decimal bounds", vec![
+            SubGrid { name: "FRAC".into(), parent: "NONE".into(), lat_s: 54.3, lat_n: 54.3 + 4. * 0.3, lon_w: 8.3, lon_e: 8.3 + 5. * 0.3, dlat: 0.3, dlon: 0.3, seed: 707 },
+            SubGrid { name: "FRACC".into(), parent: "FRAC".into(), lat_s: 54.6, lat_n: 54.6 + 6. * 0.05, lon_w: 8.6, lon_e: 8.6 + 3. * 0.1, dlat: 0.05, dlon: 0.1, seed: 808 },
+        ]),
     ];
     for (label, subs) in &shapes {
         // all file orders
